@@ -6,7 +6,7 @@
 EXTENDS Integers, Sequences, TLC, Json, IOUtils
 Tr == ndJsonDeserialize(IOEnv.VERIF_TRACE)
 VARIABLES l, nfail
-Fails(e) == IF e.ev = "total" THEN (IF e.err \in {"", "error"} /\ e.intact THEN <<>> ELSE <<"C09.total">>) ELSE <<"unknown-event">>
+Fails(e) == IF e.ev = "total" THEN (IF e.err \in {"", "error"} /\ e.intact THEN <<>> ELSE <<"C09.total">>) ELSE IF e.ev = "hang" THEN <<e.prop \o ".hang">> ELSE <<"unknown-event">>
 Init == l = 1 /\ nfail = 0
 Next == /\ l <= Len(Tr)
         /\ LET f == Fails(Tr[l]) IN
